@@ -50,6 +50,9 @@ func (k *kase) open(under *youdb.MemDatabase) (c *chain, startPrims []prim, err 
 	if e != nil {
 		return nil, startPrims, e
 	}
+	if k.mode == "strict" {
+		bc.Processor().AddEndBlockHook("c11-parent", importerHook)
+	}
 	return &chain{k: k, under: under, db: db, bc: bc, mux: mux}, startPrims, nil
 }
 
